@@ -1,7 +1,7 @@
 SPECIFICATION Spec
 CONSTANTS
   P = 3
-  J = 3
+  JobIds = {0, 1, 2}
   R = 1
   BossWorks = TRUE
 INVARIANTS TypeOK ExactlyOnce AtMostOnce MapTruthful MapComplete RealJobs Drained StackSound FinishSafe
